@@ -166,6 +166,133 @@ def c07(ctx):
                   ("obsolete_seen_by_try_read_lock", 100), ("upgrades_failed", 100), ("failed_validations", 100)]
 
 
+# -------------------------------------------------------------- E2 olc_conc
+OLC_ASSUME = [
+    "sequentially consistent interleavings at hook granularity (every lock-word, protected-field and QSBR atomic access is a scheduling point); x86-TSO, weakened memory orders are not observable here",
+    "every thread is a registered qsbr_thread, passes quiescent states only between operations, drops value views at its own remove of that key and at its own quiescent state; the main thread is paused while the others run",
+    "per-key Wing-Gong checker with memoisation; a search-budget overrun is inconclusive, never a verdict",
+]
+OLC_RULE = ("programs = structural family (hot node with fan-out 2,3,4,5,16,17,48,49 at a random depth, as root or under a two/three-child top node, "
+            "optionally with a deeper child; or an empty / one-leaf / two-leaf root) + 2-4 qsbr_threads x 1-4 operations {get, insert, remove, scan, scan_from, "
+            "scan_range (both directions, optional halting)} on keys that sit on the transitions (grow at capacity, shrink at minimum, collapse with prefix "
+            "prepend, prefix split, root replacement), quiescent states after random operations, uint64 and 8-byte key_view keys. Even cases: 2-3 threads x 1 "
+            "operation, exhaustive depth-1 preemption sweep (every thread at every scheduling point incl. its QSBR exit, both orders of the others); odd cases: "
+            "PCT schedules with 1-3 random priority-change points and random walks. ")
+
+
+def _olc_stages(ctx, prop, cases_asan, cases_rel, explore):
+    extra = ["--prop", prop, "--explore", str(explore)]
+    ctx.stage("sched-dbg-asan", "olc_conc", "dbg-asan", worker_args(ctx.seed, cases_asan, 16, extra), timeout=3600)
+    ctx.stage("sched-rel", "olc_conc", "rel", worker_args(ctx.seed + 7777, cases_rel, 16, extra), timeout=3600)
+    ctx.assumptions = list(OLC_ASSUME)
+    ctx.floors = [("programs_swept_depth1", 50), ("executions_with_overlap_on_a_key", 500), ("executions_with_spin_or_restart", 500),
+                  ("executions_with_free_during_run", 500), ("sweeps_completed", 1000), ("conservation_checks", 1000)]
+
+
+@prop("C03")
+def c03(ctx):
+    t = ctx.tier == "thorough"
+    _olc_stages(ctx, "C03", scaled(16000 if t else 800), scaled(32000 if t else 1600), 60)
+    ctx.rule = OLC_RULE + ("Every execution's call/return history (stamps = scheduler event clock, unique value per insert, final state read by the main thread) is "
+                           "checked per key for linearizability. An execution is distinct+non-trivial when (program, context-switch signature) is new, >= 1 switch "
+                           "fell inside an operation and >= 2 operations of different threads overlapped on one key")
+
+
+@prop("C04")
+def c04(ctx):
+    t = ctx.tier == "thorough"
+    _olc_stages(ctx, "C04", scaled(20000 if t else 1000), scaled(24000 if t else 1200), 60)
+    ctx.rule = OLC_RULE + ("Oracles: AddressSanitizer on every access (dbg-asan stage); hold-set monitor - each reader keeps the value views from get / scan visitors "
+                           "with a copy of the bytes until its own next quiescent state, re-reads them right before it, and every free notification is checked "
+                           "against the addresses other threads hold; after each execution (all threads exited, two quiescent states of the main thread) QSBR must "
+                           "be drained and the live allocate_aligned blocks must equal the nodes reachable per dump() exactly, and be zero after destruction. "
+                           "Distinct+non-trivial: (program, switch signature) new, >= 1 intra-operation switch and >= 1 block freed during the concurrent phase")
+    ctx.floors = ctx.floors + [("held_views_reread", 1000), ("frees_during_concurrent_phase", 1000)]
+
+
+@prop("C09")
+def c09(ctx):
+    t = ctx.tier == "thorough"
+    _olc_stages(ctx, "C09", scaled(16000 if t else 800), scaled(32000 if t else 1600), 60)
+    ctx.rule = OLC_RULE + ("In this check ~45% of the operations are scans and thread 0 always starts with one. Per scan: delivered keys strictly monotone and inside "
+                           "the interval; for every key that can ever be present (initial keys + operation keys) the observation - delivered value with its delivery "
+                           "stamp, or absence over [call, return] (only up to the halting point) - is appended as a pseudo-get to that key's point-operation history "
+                           "and must be linearizable with it. Distinct+non-trivial: (program, switch signature) new, >= 1 intra-operation switch and a scan "
+                           "overlapped a successful insert/remove of another thread")
+    ctx.floors = ctx.floors + [("scans_judged", 2000), ("executions_scan_overlapping_successful_write", 300)]
+
+
+@prop("C14")
+def c14(ctx):
+    t = ctx.tier == "thorough"
+    _olc_stages(ctx, "C14", scaled(16000 if t else 800), scaled(32000 if t else 1600), 60)
+    ctx.rule = OLC_RULE + ("Liveness is decided logically by the scheduler: DEADLOCK when every unfinished thread has reached a spin point 50 times in a row while "
+                           "no thread performed a write-kind step; LIVELOCK when an execution exceeds 400000 steps; after every execution a single-threaded sweep (get "
+                           "of every key, full forward and reverse scan, insert+remove probes next to every operation key at three byte positions) runs with the "
+                           "scheduler still active, so a lock left behind is reported as a deadlock of the sweep. Distinct+non-trivial: (program, switch signature) "
+                           "new and >= 1 spin or restart observed")
+
+
+# ---------------------------------------------------------------- E7 qptr
+QPTR_TOTAL = {3: 291918, 4: 19266654, 5: 1271599230}
+
+
+@prop("C17")
+def c17(ctx):
+    t = ctx.tier == "thorough"
+    L = 4
+    tot = QPTR_TOTAL[L]
+    # enumerated sequences with fork probes after every operation (assertions on, no sanitizer)
+    ctx.stage("enum-dbg", "qptr", "dbg", worker_args(ctx.seed, tot, 16, ["--mode", "enum", "--len", str(L)]), timeout=3600)
+    ctx.stage("random-dbg", "qptr", "dbg", worker_args(ctx.seed, scaled(240000 if t else 32000), 16, ["--mode", "random"]), timeout=3600)
+    # NDEBUG: semantics, and every probe must be accepted
+    ctx.stage("enum-rel", "qptr", "rel", worker_args(ctx.seed, tot, 16, ["--mode", "enum", "--len", str(L), "--last-only", "1"]), timeout=3600)
+    ctx.stage("random-rel", "qptr", "rel", worker_args(ctx.seed + 11, scaled(160000 if t else 24000), 16, ["--mode", "random"]), timeout=3600)
+    # ASan+UBSan: pointer semantics without forking
+    ctx.stage("enum-asan", "qptr", "dbg-asan", worker_args(ctx.seed, QPTR_TOTAL[5] if t else tot, 16, ["--mode", "enum", "--len", "5" if t else str(L)]), timeout=3600)
+    ctx.stage("random-asan", "qptr", "dbg-asan", worker_args(ctx.seed + 23, scaled(800000 if t else 100000), 16, ["--mode", "random"]), timeout=3600)
+    if t:
+        ctx.stage("enum5-dbg", "qptr", "dbg", worker_args(ctx.seed, QPTR_TOTAL[5], 16, ["--mode", "enum", "--len", "5", "--last-only", "1"]), timeout=7200)
+    ctx.exhaustive = True
+    ctx.rule = ("operation sequences over 3 wrapper slots x 2 buffers on {construct from pointer, default-construct, copy, move, copy-assign, move-assign, ++, --, "
+                "post ++/--, +=, -=, +, -, n+ptr, destroy}: every applicable sequence of length <= %d enumerated (index space %d; inapplicable indices are skipped by "
+                "a shadow-only pre-pass)%s, plus random sequences of length 4-60 incl. qsbr_ptr_span construct/copy/move/assign/iterate. After every operation "
+                "all live wrappers are compared with raw-pointer shadows (get, all six comparisons, difference, dereference, indexing, ->, temporaries); liveness "
+                "is probed in a forked child calling quiescent() / qsbr_pause() / pause+resume: SIGABRT <=> rejected, expected exactly when a non-null wrapper "
+                "is alive (assertion build) and never (NDEBUG build). A sequence is distinct+non-trivial when its hash is new and a non-null wrapper was alive at "
+                ">= 1 probe (ASan build, which does not fork: at >= 1 step)" % (L, tot, "; length 5 too in this tier" if t else ""))
+    ctx.assumptions = ["self-assignment excluded as the property states; moved-from spans are only destroyed or assigned to",
+                       "a live non-null wrapper on a paused thread cannot be produced without breaking another precondition: qsbr_resume only in the accepted direction",
+                       "the harness process is single-threaded, so fork() is safe"]
+    ctx.floors = [("probes", 10000), ("probes_rejected", 1000), ("probes_accepted", 1000), ("span_checks", 1000), ("probe_pause", 100), ("probe_resume", 100)]
+
+
+# ------------------------------------------------------------ E5 mutex_lin
+@prop("C13")
+def c13(ctx):
+    t = ctx.tier == "thorough"
+    libs = {"libs": ["-ldl"]}
+    rounds_rel = scaled(500000 if t else 36000)
+    rounds_tsan = scaled(110000 if t else 8000)
+    ctx.stage("free-rel", "mutex_lin", "rel", [["--seed", str(ctx.seed * 100 + i), "--first", "0", "--cases", str(rounds_rel)] for i in range(8)],
+              timeout=7200, build_kwargs=libs)
+    ctx.stage("free-tsan", "mutex_lin", "rel-tsan", [["--seed", str(ctx.seed * 100 + 50 + i), "--first", "0", "--cases", str(rounds_tsan)] for i in range(8)],
+              timeout=7200, build_kwargs=libs)
+    if t:
+        ctx.stage("free-asan", "mutex_lin", "dbg-asan", [["--seed", str(ctx.seed * 100 + 90 + i), "--first", "0", "--cases", str(scaled(150000))] for i in range(4)],
+                  timeout=7200, build_kwargs=libs)
+    ctx.rule = ("rounds: a fresh mutex_db<uint64>, 2-8 keys sharing prefixes (20% of rounds with static ballast keys so the branching node crosses 4/16/48 children), "
+                "pre-populated, then 2-8 free-running std::threads x 2-6 operations {insert(unique value), remove, get, empty, scan} released by a spin barrier, with "
+                "per-thread timing perturbation; stamps from one atomic counter around every call. Oracles: per-key linearizability (Wing-Gong) incl. a final "
+                "snapshot; owns_lock() == hit on every get; value bytes re-read under the held handle; hold-window rule (no other thread's operation called and "
+                "returned inside a hold); interposed pthread_mutex monitor (held count 0 after every call, 1 exactly after a hit) in the non-TSan build; ThreadSanitizer "
+                "in the other. evaluations = operations in checked rounds; a round is distinct+non-trivial when its hash is new and >= 2 operations overlapped "
+                "on one key or an operation overlapped another thread's hold window")
+    ctx.assumptions = ["OS schedules with perturbation only (no hooks inside std::mutex), which is what the property quantifies over",
+                       "x86: lock xadd stamps respect real time", "wall-clock is used only by the hang watchdog, a backstop for the interposition monitor"]
+    ctx.floors = [("rounds", 10000), ("overlapping_pairs", 10000), ("blocked_behind_hold", 1000), ("lock_monitor_checks", 10000), ("gets_hit", 1000), ("gets_miss", 1000)]
+
+
 # ------------------------------------------------------------------ setup
 def setup_specs():
     """Every (engine, configuration) the quick tier needs; built by `check setup`."""
@@ -173,6 +300,10 @@ def setup_specs():
         ("codec", "dbg-asan", {}),
         ("codec", "rel", {}),
         ("seqmodel", "dbg-asan", {}),
+        ("olc_conc", "dbg-asan", {}),
+        ("olc_conc", "rel", {}),
         ("lock_conc", "dbg", {}),
+        ("qptr", "dbg", {}), ("qptr", "rel", {}), ("qptr", "dbg-asan", {}),
+        ("mutex_lin", "rel", {"libs": ["-ldl"]}), ("mutex_lin", "rel-tsan", {"libs": ["-ldl"]}),
         ("lock_conc", "rel", {}),
     ]
